@@ -120,6 +120,12 @@ inductive SocketError where
   | webSocket (e : WsError)
   deriving DecidableEq, Repr, Inhabited
 
+/-- `impl Display for SocketError` (thiserror attributes, error.rs:38-39, 44-45) for the variants
+whose text does not involve `serde_json` / tungstenite texts. -/
+def SocketError.display : SocketError → Option String
+  | .terminated frame => some ("ExchangeStream terminated with closing frame: " ++ frame)
+  | _ => none
+
 /-! ### `core::str::from_utf8` (needed for the payload text of a failed binary deserialisation) -/
 
 inductive Utf8Res where
@@ -194,7 +200,7 @@ def utf8ErrorDisplay (validUpTo : Nat) : Option Nat → String
   | some n => "invalid utf-8 sequence of " ++ toString n ++ " bytes from index " ++ toString validUpTo
   | none => "incomplete utf-8 byte sequence from index " ++ toString validUpTo
 
-/-- `String::from_utf8(payload.into()).unwrap_or_else(|x| x.to_string())` (websocket.rs:105): the
+/-- `String::from_utf8(payload.into()).unwrap_or_else(|x| x.to_string())` (websocket.rs:101): the
 payload as text when it is UTF-8, otherwise the *text of the UTF-8 error*. -/
 def binaryPayloadText (bs : List Nat) : String :=
   match utf8Decode bs with
@@ -209,32 +215,32 @@ structure De (ι : Type) where
 
 abbrev Parsed (ι : Type) := Option (Except SocketError ι)
 
-/-- `process_text` (websocket.rs:65-84). -/
+/-- `process_text` (websocket.rs:62-82). -/
 def processText {ι : Type} (de : De ι) (payload : String) : Parsed ι :=
   some (match de.text payload with
     | some m => .ok m
     | none => .error (.deserialise payload))
 
-/-- `process_binary` (websocket.rs:87-108). -/
+/-- `process_binary` (websocket.rs:85-105). -/
 def processBinary {ι : Type} (de : De ι) (payload : List Nat) : Parsed ι :=
   some (match de.binary payload with
     | some m => .ok m
     | none => .error (.deserialise (binaryPayloadText payload)))
 
-/-- `process_ping` (websocket.rs:111-114). -/
+/-- `process_ping` (websocket.rs:108-111). -/
 def processPing {ι : Type} (_ping : List Nat) : Parsed ι := none
 
-/-- `process_pong` (websocket.rs:117-120). -/
+/-- `process_pong` (websocket.rs:114-117). -/
 def processPong {ι : Type} (_pong : List Nat) : Parsed ι := none
 
-/-- `process_close_frame` (websocket.rs:123-129). -/
+/-- `process_close_frame` (websocket.rs:120-126). -/
 def processCloseFrame {ι : Type} (frame : Option CloseFrame) : Parsed ι :=
   some (.error (.terminated (closeFrameDebug frame)))
 
-/-- `process_frame` (websocket.rs:132-138). -/
+/-- `process_frame` (websocket.rs:129-136). -/
 def processFrame {ι : Type} (_frame : List Nat) : Parsed ι := none
 
-/-- `WebSocketParser::parse` (websocket.rs:42-61). -/
+/-- `WebSocketParser::parse` (websocket.rs:41-58). -/
 def parse {ι : Type} (de : De ι) : Except WsError WsMessage → Parsed ι
   | .ok (.text t) => processText de t
   | .ok (.binary b) => processBinary de b
@@ -281,6 +287,42 @@ def payloadText : WsMessage → Option String
     | .err _ _ => none
   | _ => none
 
+/-- What the documentation determines about `parse` (`none` = it is silent): housekeeping is
+skipped, a close is `Terminated` with the frame, a transport error is passed on, a data payload is
+handed to the deserialiser and a failure is reported together with the payload as text — which
+says nothing about a payload that has no text form. -/
+def specParse {ι : Type} (de : De ι) (m : Except WsError WsMessage) : Option (Parsed ι) :=
+  match m with
+  | .error e => some (some (.error (.webSocket e)))
+  | .ok w =>
+    match disposition m with
+    | .housekeeping => some none
+    | .closed =>
+      match w with
+      | .close f => some (some (.error (.terminated (closeFrameDebug f))))
+      | _ => none
+    | .transport => none
+    | .data =>
+      match w with
+      | .text t =>
+        some (some (match de.text t with
+          | some x => .ok x
+          | none => .error (.deserialise t)))
+      | .binary b =>
+        match de.binary b with
+        | some x => some (some (.ok x))
+        | none => (payloadText w).map fun t => some (.error (.deserialise t))
+      | _ => none
+
+/-- "Does this error indicate that the WebSocket has disconnected?" as far as tungstenite's
+documentation of its errors settles it (`none` = not settled): `ConnectionClosed` / `AlreadyClosed`
+say so, `Io` errors are "errors with the underlying connection", the kinds below have nothing to
+do with the connection's liveness; the `Protocol` and `Tls` families are left open. -/
+def specDisconnected : WsError → Option Bool
+  | .connectionClosed | .alreadyClosed | .io => some true
+  | .capacity | .writeBufferFull | .utf8 | .attackAttempt | .url | .http | .httpFormat => some false
+  | .protocol _ | .tls => none
+
 /-! ## 2. `ExchangeStream` (`stream/mod.rs`) -/
 
 /-- One poll result of the inner stream that is not the end: an item, or `Poll::Pending`. -/
@@ -317,7 +359,7 @@ inductive PollRes (α : Type) where
   | pending
   deriving DecidableEq, Repr
 
-/-- `ExchangeStream::new` (stream/mod.rs:86-97). -/
+/-- `ExchangeStream::new` (stream/mod.rs:88-99). -/
 def St.new {μ σ ο τ : Type} (stream : Script μ) (transformer : σ) (buffer : List (Except τ ο)) :
     St μ σ ο τ := ⟨stream, transformer, buffer⟩
 
@@ -340,7 +382,7 @@ def pollInner (P : Params μ ε ι σ ο τ) (ended : Bool) (t : σ) :
       | (t', []) => pollInner P ended t' rest
       | (t', o :: os) => (⟨⟨rest, ended⟩, t', os⟩, .ready (some o))
 
-/-- `ExchangeStream::poll_next` (stream/mod.rs:41-79). -/
+/-- `ExchangeStream::poll_next` (stream/mod.rs:41-78). -/
 def pollNext (P : Params μ ε ι σ ο τ) (s : St μ σ ο τ) : St μ σ ο τ × PollRes (Except τ ο) :=
   match s.buffer with
   | o :: rest => ({ s with buffer := rest }, .ready (some o))
@@ -374,6 +416,13 @@ def processBuffered (P : Params μ ε ι σ ο τ) (t : σ) : List μ → σ × 
       let (t'', more) := processBuffered P t' ms
       (t'', outs ++ more)
     | _ => processBuffered P t ms
+
+/-- The parameters with parse failures turned into skippable messages (how
+`process_buffered_events` treats them: logged and dropped). -/
+def quiet (P : Params μ ε ι σ ο τ) : Params μ ε ι σ ο τ :=
+  { P with parse := fun m => match P.parse m with
+      | some (.error _) => none
+      | r => r }
 
 /-! ### Specification of the stream (from the doc comment: "polls protocol messages from the
 inner Stream, and transforms them into the desired output data structure") -/
@@ -637,7 +686,7 @@ def deStrF64EpochS (sem : FloatSem) (j : Json) : Outcome Nat :=
   | .err e => .err e
   | .panic => .panic
 
-/-- `extract_next` (de.rs:75-86) over the remaining elements of a sequence; `de` deserialises one
+/-- `extract_next` (de.rs:74-85) over the remaining elements of a sequence; `de` deserialises one
 element into the target type. -/
 def extractNext {J α : Type} (de : J → Option α) (name : String) :
     List J → Except String (α × List J)
@@ -659,7 +708,7 @@ def extractAll {J α : Type} (de : J → Option α) : List String → List J →
       | .error e => .error e
       | .ok (as, rest') => .ok (a :: as, rest')
 
-/-- `se_element_to_vector` (de.rs:89-100): a sequence of length one. -/
+/-- `se_element_to_vector` (de.rs:88-99): a sequence of length one. -/
 def seElementToVector {α : Type} (element : α) : List α := [element]
 
 /-! ### Specification of the time helpers (from their doc comments) -/
